@@ -130,11 +130,11 @@ theorem step_inv (vr : Variant) {k : Nat} (hk : 0 < k) {c : Conn V} (h : Inv c) 
     split
     · exact h.push (.single c.next) (c.next + k) (by simp [Key.ids]) (by simp [Key.ids])
         (by simp [Key.ids]) (by simp [Key.ids]; omega) (by omega)
-    · exact h.of_sublist (Sublist.refl _) (by simp) (Nat.le_refl _)
+    · exact h.of_sublist (Sublist.refl _) (by simp only; split <;> omega) (Nat.le_refl _)
   | sendBatch ms ok =>
     simp only [step]
     split
-    · exact h.of_sublist (Sublist.refl _) (by simp) (Nat.le_refl _)
+    · exact h.of_sublist (Sublist.refl _) (by simp only; split <;> omega) (Nat.le_refl _)
     · split
       · exact h.of_sublist (Sublist.refl _) (by simp) (Nat.le_refl _)
       · rename_i hn
